@@ -122,6 +122,15 @@ func dkgStepRun(kind string, r *prng.R, s *out.Sink, n, t, msgLen int, scenario 
 	// The key is refused on arrival; the run must end with an error, never with a panic.
 	var badPointFrom uint16
 	badPoint := r.Bytes(128)
+	// (a string the library's parser refuses: for some first bytes it reads the rest leniently and takes 128 random bytes
+	// for a point — delivering that to the party under test only would be an equivocating *broadcast*, which the layer
+	// below excludes and this component must not fabricate)
+	for tries := 0; tries < 40; tries++ {
+		if _, err := bls.VerifCurve().NewG2FromBytes(badPoint); err != nil {
+			break
+		}
+		badPoint = r.Bytes(128)
+	}
 	if kind == "ps" && scenario == "bad-point" {
 		scenario = "one-reveal"
 	}
@@ -453,7 +462,19 @@ func dkgStepRun(kind string, r *prng.R, s *out.Sink, n, t, msgLen int, scenario 
 				wf = true
 			}
 			s.Count("dkg/bad-point-message")
-			okRun = deliver(sub, "substituted", wf || m.data[0] == 2)
+			// bookkeeping for the monitors: if the string is refused on arrival (it is not a point), the genuine key is the one
+			// recorded and cannot match the commitment to the string; if the library's parser takes it for a point after all
+			// (some first bytes make it read the rest leniently), commitment and key are consistent — a corrupted
+			// participant's own business — but the key is off the common polynomial
+			if m.data[0] == 3 {
+				if wf {
+					tamperedFirst = true
+					s.Count("dkg/bad-point-parsed-as-a-point")
+				} else {
+					mismatchFrom = m.from
+				}
+			}
+			okRun = deliver(sub, "bad-point", wf || m.data[0] == 2)
 			if okRun && !finished {
 				okRun = deliver(m, "as-sent", true)
 			}
